@@ -97,7 +97,8 @@ fn c07_asyncfd_drop() {
         if direct {
             assert!(closes == 0, "a direct descriptor is not a process descriptor");
             assert!(regs == 1 && unsafe { REG_OP } == libc::IORING_REGISTER_FILES_UPDATE);
-            assert!(unsafe { REG_OFFSET } == fd as u32 && unsafe { REG_FD0 } == -1 && unsafe { REG_NR } == 1);
+            let (off, fd0, nr) = unsafe { (REG_OFFSET, REG_FD0, REG_NR) };
+            assert!(off == fd as u32 && fd0 == -1 && nr == 1, "unregisters exactly this descriptor's slot");
         } else {
             assert!(closes == 1 && last == fd && regs == 0, "close(2) exactly once on exactly this descriptor");
         }
